@@ -183,9 +183,9 @@ func (c *conn) receive() (err error) {
 		err = core.InvalidResponseError{}
 		return
 	}
-	body := make([]byte, length)
-	if _, err = io.ReadAtLeast(c.Conn, body, length); err != nil {
-		return
+	body, err := readBody(c.Conn, length)
+	if err != nil {
+		return err
 	}
 	if !ok {
 		if string(body) == core.RequestEntityTooLarge {
